@@ -469,7 +469,16 @@ def _check(prop, tier, replay):
 
     impls, lines, idx = [], [], []
     harness_exc = []          # exceptions inside the plugin on single cases: they must not mask violations elsewhere
+    # a library that became pathologically slow (a structure that grows with every use) must end in a verdict on what was
+    # run, not in a harness timeout: the cases that do not fit into 40% of the wall-clock budget are left out (and said so)
+    run_budget = float(os.environ.get('VERIF_RUN_BUDGET', 0.4 * int(os.environ.get('VERIF_WALL', '5400' if tier == 'thorough' else '2700'))))
+    t_run0 = time.time()
     for i, c in enumerate(cases):
+        if i % 16 == 0 and time.time() - t_run0 > run_budget:
+            print(f'note: {len(cases) - i} of {len(cases)} cases left out: the implementation took {time.time() - t_run0:.0f}s '
+                  f'for the first {i} (budget {run_budget:.0f}s); judging what was run')
+            cases = cases[:i]
+            break
         try:
             with debug_logging(dbg_of(i)), process_tz(tz_of(i)):
                 impl = P.run_impl(c)
